@@ -59,26 +59,86 @@ func main() {
 	fam.Targets = []tr.Target{{Recv: "provider", Method: "ruleSetsUpdated", Lean: "ruleSetsUpdated",
 		Params: []string{"remembered", "empty", "sameDigest", "onCreated", "onUpdated", "onDeleted", "store", "forget", "nilDeref"}}}
 
-	defs, err := tr.TranslateFamily(os.Args[1], fam)
-	if err != nil {
-		fmt.Fprintf(os.Stderr, "go2lean: %v\n", err)
-		os.Exit(2) //nolint:mnd
+	optRS := tr.TypeSpec{K: tr.KOpt, T: "RS"}
+	fs := &tr.Family{
+		Name: "FileSystem", Dir: "internal/rules/provider/filesystem", RecvType: "Provider",
+		Effectful: true, Monad: "Go.M Ctx PV", NilPanic: "nilDeref",
+		Objects: map[string]string{"string": "fileName"},
 	}
+	fs.TypeVars = []string{"Ctx", "PV", "Err", "H", "RS"}
+	fs.GoTypes = map[string]tr.TypeSpec{"error": optErr, "[]byte": optH, "any": optH, "*config2.RuleSet": optRS}
+	fs.Params = []tr.Param{
+		{Name: "load", Type: "Go.M Ctx PV (Option RS × Option Err)"},
+		{Name: "isEmptyRuleSet", Type: "Err → Bool"}, {Name: "isNotExist", Type: "Err → Bool"},
+		{Name: "remembered", Type: "Go.M Ctx PV (Option H × Bool)"}, {Name: "digestLen", Type: "Option H → Int"},
+		{Name: "sameDigest", Type: "Option H → Bool"},
+		{Name: "onCreated", Type: "Option RS → Go.M Ctx PV (Option Err)"},
+		{Name: "onUpdated", Type: "Option RS → Go.M Ctx PV (Option Err)"},
+		{Name: "onDeleted", Type: "Go.M Ctx PV (Option Err)"},
+		{Name: "store", Type: "Go.M Ctx PV Unit"}, {Name: "forget", Type: "Go.M Ctx PV Unit"},
+		{Name: "nilDeref", Type: "PV"},
+	}
+	fs.Funcs = []tr.FuncAtom{
+		{Fun: "recv.loadRuleSet", Args: []string{"fileName"}, Lean: "load", Res: []tr.TypeSpec{optRS, optErr}, Effect: true},
+		{Fun: "errors.Is", Args: []string{"$", "config.ErrEmptyRuleSet"}, Lean: "isEmptyRuleSet", Res: []tr.TypeSpec{boolT}, NilFalse: true},
+		{Fun: "errors.Is", Args: []string{"$", "os.ErrNotExist"}, Lean: "isNotExist", Res: []tr.TypeSpec{boolT}, NilFalse: true},
+		{Fun: "recv.states.Load", Args: []string{"fileName"}, Lean: "remembered", Res: []tr.TypeSpec{optH, boolT}, Effect: true},
+		{Fun: "bytes.Equal", Args: []string{"$", "*"}, Lean: "sameDigest", Res: []tr.TypeSpec{boolT}},
+		{Fun: "recv.p.OnCreated", Args: []string{"$"}, Lean: "onCreated", Res: []tr.TypeSpec{optErr}, Effect: true},
+		{Fun: "recv.p.OnUpdated", Args: []string{"$"}, Lean: "onUpdated", Res: []tr.TypeSpec{optErr}, Effect: true},
+		{Fun: "recv.p.OnDeleted", Args: []string{"*"}, Lean: "onDeleted", Res: []tr.TypeSpec{optErr}, Effect: true},
+		{Fun: "recv.states.Store", Args: []string{"fileName", "*"}, Lean: "store", Res: []tr.TypeSpec{unitT}, Effect: true},
+		{Fun: "recv.states.Delete", Args: []string{"fileName"}, Lean: "forget", Res: []tr.TypeSpec{unitT}, Effect: true},
+		{Fun: "len", Args: []string{"$"}, Lean: "digestLen", Res: []tr.TypeSpec{{K: tr.KInt, U: tr.UPlain}}},
+	}
+	tombstone := tr.Var("tombstone", tr.KOpt, tr.UNone)
+	tombstone.T = "RS"
+	fs.Atoms = map[string]tr.Atom{"&config.RuleSet{…}": {Value: tombstone}}
+	fs.Params = append(fs.Params, tr.Param{Name: "tombstone", Type: "Option RS"})
+	all := []string{"tombstone", "load", "isEmptyRuleSet", "isNotExist", "remembered", "digestLen", "sameDigest", "onCreated",
+		"onUpdated", "onDeleted", "store", "forget", "nilDeref"}
+	fs.Targets = []tr.Target{{Recv: "Provider", Method: "ruleSetDeleted", Lean: "ruleSetDeleted", Params: all}}
+
+	// ruleSetCreatedOrUpdated hands a file that is gone or empty over to ruleSetDeleted: that call is a parameter here
+	// (`deleted`), Model/ProvidersSrc.lean puts the translation above in its place
+	fsc := *fs
+	fsc.Name = "FileSystemChanged"
+	fsc.Funcs = append([]tr.FuncAtom{{Fun: "recv.ruleSetDeleted", Args: []string{"fileName"}, Lean: "deleted",
+		Res: []tr.TypeSpec{optErr}, Effect: true}}, fs.Funcs...)
+	fsc.Params = append([]tr.Param{{Name: "deleted", Type: "Go.M Ctx PV (Option Err)"}}, fs.Params...)
+	fsc.Targets = []tr.Target{{Recv: "Provider", Method: "ruleSetCreatedOrUpdated", Lean: "ruleSetCreatedOrUpdated",
+		Params: append([]string{"deleted"}, all...)}}
 
 	body, index := "", ""
-	for _, d := range defs {
-		body += d.LeanEff() + "\n"
-		index += "* `" + fam.Name + "." + d.Target.Lean + "` = " + d.GoName + ", " + d.Pos + "\n"
+
+	for _, fm := range []*tr.Family{fam, fs, &fsc} {
+		defs, err := tr.TranslateFamily(os.Args[1], fm)
+		if err != nil {
+			fmt.Fprintf(os.Stderr, "go2lean: %v\n", err)
+			os.Exit(2) //nolint:mnd
+		}
+
+		body += "namespace " + fm.Name + "\n\n"
+		for _, d := range defs {
+			body += d.LeanEff() + "\n"
+			index += "* `" + fm.Name + "." + d.Target.Lean + "` = " + d.GoName + ", " + d.Pos + "\n"
+		}
+
+		body += "end " + fm.Name + "\n\n"
 	}
 
 	fmt.Print("-- GENERATED by extract/go2lean (cmd/providers) from the current source of heimdall. Do not edit.\n" +
-		"import HeimdallModel.Base.GoRun\n/-!\n# The decision kernel of the http_endpoint rule provider, translated from the Go source (C18)\n\n" +
+		"import HeimdallModel.Base.GoRun\n/-!\n# The decision kernels of the http_endpoint and file_system rule providers, translated from the Go source (C18)\n\n" +
 		"Whole body of `(*provider).ruleSetsUpdated`. `remembered` is `p.states.Load(stateID)` (the digest last applied and\n" +
 		"whether there is one), `empty` says that the fetched rule set has no rules, `sameDigest h` compares `h` with the digest of\n" +
 		"the fetched rule set; `onCreated` / `onUpdated` / `onDeleted` (the rule set processor) and `store` / `forget` (the state\n" +
 		"map) act on the context. `Props/C18Src.lean` proves that it makes exactly the processor call `httpUpdated` of the model\n" +
-		"makes and changes the remembered digest only after the processor accepted.\n\n" +
+		"makes and changes the remembered digest only after the processor accepted. `FileSystem.ruleSetDeleted` and\n" +
+		"`FileSystemChanged.ruleSetCreatedOrUpdated` are the whole bodies of the file_system provider's functions of these names:\n" +
+		"`load` is `p.loadRuleSet(fileName)`, `isEmptyRuleSet` / `isNotExist` the two `errors.Is` tests, `digestLen` is `len(hash)`,\n" +
+		"`deleted` the call of `ruleSetDeleted`, `tombstone` the rule set built for `OnDeleted`; they are proved equal to\n" +
+		"`fsCreatedOrUpdated` / `fsDeleted` of the model.\n\n" +
 		"Translated functions:\n" + index + "-/\nset_option linter.unusedVariables false\n\nnamespace Heimdall.Prov.Src\n\n" +
 		"/-- this file is the result of a successful translation of the current source -/\n" +
-		"def translationOk : Bool := true\n\nnamespace " + fam.Name + "\n\n" + body + "end " + fam.Name + "\n\nend Heimdall.Prov.Src\n")
+		"def translationOk : Bool := true\n\n" + body + "end Heimdall.Prov.Src\n")
 }
